@@ -364,6 +364,18 @@ theorem unit_aliases_resolve :
   unfold Gen.unitOfName
   split <;> simp_all
 
+/-- the unit a spectrum REPORTS is always a name `Spectrum.to` converts to: whatever accepted spelling a spectrum was built
+with (`Gen.reportedUnit`, from the `waveunit`/`valueunit` setters and getters: `Unit(name).name`), the reported name is one
+of the names `to` dispatches on (`Gen.toWaveNames`/`toFluxNames`, read from `Spectrum.to`), which are exactly the canonical
+names of the two conversion tables — so `s.to(t.waveunit)` / `s.to(t.valueunit)` is never refused for a unit some spectrum
+carries; the aliases `Unit` accepts are NOT among `to`'s names (the documented discrepancy, as a fact about today's code) -/
+theorem reported_units_are_to_targets :
+    (∀ n ∈ Gen.unitNames, ∃ c, Gen.reportedUnit n = some c ∧ c ∈ Gen.toWaveNames ++ Gen.toFluxNames) ∧
+    Gen.toWaveNames = WUnit.all.map WUnit.name ∧ Gen.toFluxNames = FUnit.all.map FUnit.name ∧
+    (∀ u : WUnit, Gen.reportedUnit u.name = some u.name) ∧ (∀ f : FUnit, Gen.reportedUnit f.name = some f.name) ∧
+    Gen.reportedUnit "micron" = some "um" ∧ ("micron" ∈ Gen.unitNames ∧ "micron" ∉ Gen.toWaveNames ++ Gen.toFluxNames) := by
+  refine ⟨by decide, rfl, rfl, fun u => by cases u <;> decide, fun f => by cases f <;> decide, by decide, by decide⟩
+
 /-- non-vacuity / instance: `to('um', 'flam', 'nm', 'wlam', 'angstrom')` = flux → wlam once, wavelengths → angstrom once -/
 example (H C : ℚ) (hH : H ≠ 0) (hC : C ≠ 0) (s : USpec) (f : FUnit) (hf : s.vu = some f) (hl : s.value.length = s.wave.length)
     (hw : ∀ w ∈ s.wave, w ≠ 0) : ∃ s₁, toFlux .wlam H C s = some s₁ ∧
